@@ -23,7 +23,7 @@ LEVEL = "model_checking"
 def worlds():
     from mc.worlds import registry
 
-    d = dict(registry.WORLDS)
+    d = {k: v for k, v in registry.WORLDS.items() if not k.endswith("(closed)")}  # a frozen-bar variant of a path world below
     d.update(registry.PATH_WORLDS)
     return d
 
